@@ -218,6 +218,16 @@ def run(ck):
     # "exactly once, in order, attributed to the pipe it was sent to": nothing but the caller's payload is in the TX FIFO when send() starts
     # (left-over ACK payloads are flushed on TX entry) and pipe 0 returns to the reading address after a transmission (R08.x, shared with C08)
     c08.run_for(ck, radio, agg)
+    # the sibling driver rf24_lite.RF24 implements the same write()/send()/read()/any() contract (C20 judges it in full); the payload path
+    # rules are applied to it here as well, so that a change to either driver's payload path is reported under C01 itself
+    lite = Radio(ck, "rf24_lite", "RF24")
+    link.write_gate(lite, agg, lite=True)
+    link.write_static(lite, agg, lite=True)
+    link.no_mutation(lite, agg)
+    link.write_cmd(lite, agg, lite=True)
+    framing(ck, lite, agg)
+    c10.run_for(ck, lite, agg, lite=True)
+    link.send_prologue(lite, agg, lite=True, rule="R01.8")
     # FakeBLE.advertise takes caller buffers too
     ble = Radio(ck, "fake_ble", "FakeBLE")
     fadv = ck.prog.method(ble.cls, "advertise")
